@@ -40,13 +40,11 @@ def main():
             continue
         prop = mid.split("/")[0]
         res = {"id": mid}
-        sh(f"git -C {a.wt} checkout -q -- . && git -C {a.wt} clean -qfd && git -C {a.wt} checkout -q --detach {head}")
+        sh(f"git -C {a.wt} reset -q --hard && git -C {a.wt} clean -qfd && git -C {a.wt} checkout -q --detach {head}")
         env = dict(os.environ, PYTHONPATH=a.wt)
         rc, out = sh([PY, os.path.join(d, "demo.py")], cwd=a.wt, env=env)
         res["demo_clean"] = rc
         rc, out = sh(f"git -C {a.wt} apply {pf}")
-        if rc != 0:
-            rc, out = sh(f"git -C {a.wt} apply -3 {pf}")
         res["applies"] = rc == 0
         if rc != 0:
             res["apply_error"] = out[-300:]
@@ -73,7 +71,7 @@ def main():
         if a.suite:
             rc, out = sh(f"cd {a.wt} && {PY} -m pytest -q -p no:cacheprovider -n 12 -x 2>&1 | tail -3")
             res["suite"] = out.strip().split("\n")[-1][:160]
-        sh(f"git -C {a.wt} checkout -q -- . && git -C {a.wt} clean -qfd")
+        sh(f"git -C {a.wt} reset -q --hard && git -C {a.wt} clean -qfd")
         results[mid] = res
         det = {c: v["exit"] for c, v in res["checks"].items()}
         print(mid, "demo clean/mutant:", res["demo_clean"], res["demo_mutant"], "checks:", det, res.get("suite", ""), flush=True)
